@@ -40,7 +40,7 @@ func TestMain(m *testing.M) {
 	code := pbt.Main(m, pbt.Meta{
 		Property: "C11",
 		Level:    "exploration",
-		Rule: "state machines (explicit op lists, 3..14 ops) over one jobstorage.FSJobStorage directory and two unchanged graphs on kvgraph/Badger (a random small graph; a sized graph with |V|,|E| in {0,1,3,4,5,39,40,41} and, thorough only, {4999,5000,5001}): submit(graph, traversal) / status / view / resume(job, suffix) / search(graph, traversal) / list(graph) / delete(job) / restart (= NewFSJobStorage on the same directory), driven with the call sequences of server/job_manager.go. Traversals: typed-grammar traversals and their element-typed prefixes, sized families V()/E() x {elements, render, path, selection, count, aggregation}, count/term aggregations, extensions of earlier jobs; resume suffixes: the rest of the split traversal, tails of fresh traversals, suffixes that read marks of the stored prefix; search queries: extensions, exact, proper prefixes and one-statement mutations of stored traversals, on the job's graph and on the other one. Oracle: direct execution (pipeline.Run) of the same / the concatenated traversal on the unchanged graph (multisets of canonical rows; order-sensitive traversals are compared by count only), proto-equal-prefix for search, and the machine's own bookkeeping for list/delete/restart. Plus: a fixed scenario over pairs of graph names that file-name sanitising maps to one key, a live GripServer driven through the Job gRPC service, and subprocess confirmations of process-killing cases. " +
+		Rule: "state machines (explicit op lists, 3..14 ops) over one jobstorage.FSJobStorage directory and two unchanged graphs on kvgraph/Badger (a random small graph; a sized graph with |V|,|E| in {0,1,3,4,5,39,40,41} and, thorough only, {4999,5000,5001}): submit(graph, traversal) / status / view / resume(job, suffix) / search(graph, traversal) / list(graph) / delete(job) / restart (= NewFSJobStorage on the same directory), driven with the call sequences of server/job_manager.go. Traversals: typed-grammar traversals and their element-typed prefixes, sized families V()/E() x {elements, render, path, selection, count, aggregation}, count/term aggregations, extensions of earlier jobs; resume suffixes: the rest of the split traversal, tails of fresh traversals, suffixes that read marks of the stored prefix; search queries: extensions, exact, proper prefixes and one-statement mutations of stored traversals, on the job's graph and on the other one. Oracle: direct execution (pipeline.Run) of the same / the concatenated traversal on the unchanged graph (multisets of canonical rows; order-sensitive traversals are compared by count only), proto-equal-prefix for search, and the machine's own bookkeeping for list/delete/restart. 400 (quick) / 3200 (thorough) machines; 12 / 160 shorter machines through a live server. Plus: a fixed scenario over pairs of graph names that file-name sanitising maps to one key, a live GripServer (restart = stop and start on the same directories) driven through the Job gRPC service with Query.Traversal as the oracle, the minimal cases of the listed findings, and subprocess confirmations (a process-killing resume; a restart with 1501 jobs under a 1024 open-file limit). " +
 			"Non-trivial: the machine has a completed job with >=5 rows or a non-element result type AND at least one restart followed by a read (status/view/resume/search/list); distinct = op-list text.",
 		Assumptions: []string{
 			"the oracle for stored / resumed rows is bmeg/grip's own direct execution of the traversal (C01 judges that against the documentation); graphs are never mutated after the first submit",
@@ -178,7 +178,9 @@ type jobRec struct {
 	id      string
 	want    []string // rows of the direct run (canonical, sorted)
 	ty      model.Type
-	ordered bool // contains limit/skip/range/distinct: compared by count only
+	ordered bool     // contains limit/skip/range/distinct
+	cmp     int      // how the stored rows are judged against the direct run (cmpRows / cmpCount / cmpSelf)
+	base    []string // rows of the first view (jobs not comparable with the direct run; later views must equal it)
 	state   int
 	man     gdbi.Manager
 }
@@ -193,13 +195,47 @@ type machine struct {
 	stop  bool // a known finding / inconclusive wait ended the judgement of this machine
 	stats struct {
 		restarts, readsAfterRestart, resumes, resumesJudged, searchHits, searches int
-		bigOrNonElement                                                            bool
-		restarted                                                                  bool
+		bigOrNonElement                                                           bool
+		restarted                                                                 bool
 	}
 }
 
 // WaitBudget bounds every wait for a job / a stream; never an oracle (see quiesce).
 var WaitBudget = 45 * time.Second
+
+// Row order is never asserted. A traversal without limit/skip/range/distinct has one
+// result multiset (cmpRows). With such a step the surviving rows depend on the order, but
+// their number does not as long as every later step maps one row to one row (as, fields,
+// render, path, select), truncates again, or counts (cmpCount). Otherwise (a fan-out or a
+// filter after the truncation, a distinct after it) two runs may differ even in size: the
+// job is then judged for self-consistency only (Status.Count == stored rows, rows stable
+// across views and restarts) (cmpSelf).
+const (
+	cmpRows = iota
+	cmpCount
+	cmpSelf
+)
+
+func cmpMode(steps []model.Step) int {
+	first := -1
+	for i, s := range steps {
+		if model.OrderSensitive(s) {
+			first = i
+			break
+		}
+	}
+	if first < 0 {
+		return cmpRows
+	}
+	for _, s := range steps[first+1:] {
+		switch s.Op {
+		case "as", "fields", "render", "path", "select", "limit", "skip", "range", "count":
+		default:
+			return cmpSelf
+		}
+	}
+	return cmpCount
+}
 
 func orderSensitive(steps []model.Step) bool {
 	for _, s := range steps {
@@ -285,7 +321,7 @@ func (m *machine) submit(op Op) {
 	man := engine.NewManager(gripx.WorkDir())
 	res := pipeline.Start(context.Background(), pipe, man, 5000, nil, nil)
 	id, err := m.js.Spool(g.name, &jobstorage.Stream{DataType: pipe.DataType(), MarkTypes: pipe.MarkTypes(), Pipe: res, Query: q})
-	j := &jobRec{graph: op.Graph, steps: op.Steps, q: q, id: id, want: direct.Rows, ty: ty.Final, ordered: orderSensitive(op.Steps), state: jPending, man: man}
+	j := &jobRec{graph: op.Graph, steps: op.Steps, q: q, id: id, want: direct.Rows, ty: ty.Final, ordered: orderSensitive(op.Steps), cmp: cmpMode(op.Steps), state: jPending, man: man}
 	m.jobs = append(m.jobs, j)
 	if err != nil || id == "" {
 		j.state = jGone
@@ -420,12 +456,16 @@ func (m *machine) checkStatus(j *jobRec, st *gripql.JobStatus, where string) boo
 		m.disc(where+":state", "job %s (%s): state %s, want COMPLETE", j.id, model.TravString(j.steps), st.State)
 		return false
 	}
-	if int(st.Count) != len(j.want) {
+	wantN, what := len(j.want), "the direct run returns"
+	if j.cmp == cmpSelf {
+		wantN, what = len(j.base), "the job stores"
+	}
+	if (j.cmp != cmpSelf || j.base != nil) && int(st.Count) != wantN {
 		sig := "status-count"
 		if where != "status" {
 			sig = where + ":count"
 		}
-		m.disc(sig, "job %s (%s, result type %s): Status.Count=%d, the direct run returns %d rows", j.id, model.TravString(j.steps), j.ty, st.Count, len(j.want))
+		m.disc(sig, "job %s (%s, result type %s): Status.Count=%d, %s %d rows", j.id, model.TravString(j.steps), j.ty, st.Count, what, wantN)
 		return false
 	}
 	if st.Id != j.id || st.Graph != g.name {
@@ -464,7 +504,7 @@ func (m *machine) statusOp(op Op) {
 			m.disc("status:not-found-after-submit", "Status(%s,%s) of a running job: %v", g.name, j.id, err)
 			return
 		}
-		if int(st.Count) > len(j.want) {
+		if j.cmp != cmpSelf && int(st.Count) > len(j.want) {
 			m.disc("status-count", "running job %s (%s): Status.Count=%d exceeds the %d rows of the direct run", j.id, model.TravString(j.steps), st.Count, len(j.want))
 		}
 	case jComplete:
@@ -520,9 +560,19 @@ func (m *machine) view(j *jobRec) (rows []string, ok bool) {
 	if m.stats.restarted {
 		sig = "restart:rows:" + j.ty.String()
 	}
-	if j.ordered {
-		if len(rows) != len(j.want) {
+	if j.cmp != cmpRows {
+		if j.cmp == cmpCount && len(rows) != len(j.want) {
 			m.disc(sig, "job %s (%s): %d stored rows, the direct run returns %d", j.id, model.TravString(j.steps), len(rows), len(j.want))
+			return nil, false
+		}
+		if j.base == nil {
+			j.base = append([]string{}, rows...)
+			if st, err := m.js.Status(g.name, j.id); err == nil && int(st.Count) != len(rows) {
+				m.disc("status-count", "job %s (%s, result type %s): Status.Count=%d, the job stores %d rows", j.id, model.TravString(j.steps), j.ty, st.Count, len(rows))
+				return nil, false
+			}
+		} else if d := gripx.DiffMultiset(rows, j.base); d != "" {
+			m.disc(where+":rows-changed:"+j.ty.String(), "job %s (%s): the stored rows differ from those read earlier: %s", j.id, model.TravString(j.steps), d)
 			return nil, false
 		}
 		return rows, true
